@@ -28,8 +28,16 @@ def set_partitions_as_maps(n):
         yield from rec([], -1)
 
 
+class FalsyE(E):
+    """an exception whose truth value is False (a multi-error holding an empty list)"""
+    def __len__(self):
+        return 0
+
+
 def settle(f, kind, tag):
-    if kind == "r":
+    if kind == "z":
+        f.set_exception(FalsyE(tag))
+    elif kind == "r":
         f.set_result(("res", tag))
     elif kind == "e":
         f.set_exception(E(tag))
@@ -57,7 +65,7 @@ def fut_outcome(f):
 
 
 def want_of(kind, tag):
-    return {"r": ("ok", ("res", tag)), "e": ("E", tag), "c": ("cancelled",), "x": ("cancelled",)}[kind]
+    return {"r": ("ok", ("res", tag)), "e": ("E", tag), "z": ("E", tag), "c": ("cancelled",), "x": ("cancelled",)}[kind]
 
 
 # --------------------------------------------------------------------------
@@ -71,7 +79,9 @@ def run_multi(case):
         for i in range(k):
             if predone[i]:
                 settle(futs[i], kinds[i], i)
-        if form == "list":
+        if form == "tuple":
+            m = gen.multi(tuple(futs[p] for p in posmap))      # any sequence, called directly
+        elif form == "list":
             m = gen.multi([futs[p] for p in posmap])
         else:
             d = {"k%d" % j: futs[p] for j, p in enumerate(posmap)}
@@ -103,7 +113,7 @@ def run_multi(case):
                 break
         if want is None:
             vals = [("res", p) for p in posmap]
-            want = ("ok", vals if form == "list" else {"k%d" % j: v for j, v in enumerate(vals)})
+            want = ("ok", vals if form in ("list", "tuple") else {"k%d" % j: v for j, v in enumerate(vals)})
         return got, want, early, errs
 
 
@@ -115,7 +125,7 @@ def cases_multi(n):
                 for predone in itertools.product((0, 1), repeat=k):
                     pend = [i for i in range(k) if not predone[i]]
                     for order in itertools.permutations(pend):
-                        for form in ("list", "dict", "dict-mut"):
+                        for form in ("list", "dict", "dict-mut", "tuple"):
                             yield (form, posmap, kinds, predone, order)
 
 
@@ -362,7 +372,7 @@ def cf_outcome(f):
 
 
 def cases_chain():
-    for akind in "recx":
+    for akind in "recxz":
         for a_predone in (0, 1):
             for bstate in ("pending", "done-before", "cancel-before", "done-between", "cancel-between"):
                 for bclass in ("asyncio", "cf"):
